@@ -381,3 +381,42 @@ def mmc_reference(A0, diffS, diffD, max_iter, max_proj, tol):
     if delta < tol:
       break
   return A_old, first, margin, t
+
+
+# ----------------------------------------------------------------------------- SCML
+
+def scml_dist_diff(T, basis):
+  """per-triplet, per-basis difference of squared projected distances d_b(a,b) - d_b(a,c)."""
+  out = np.zeros((len(T), len(basis)))
+  for t, (a, b, c) in enumerate(T):
+    for i, bv in enumerate(basis):
+      out[t, i] = float(bv.dot(a - b)) ** 2 - float(bv.dot(a - c)) ** 2
+  return out
+
+
+def scml_reference(dist_diff, beta, gamma, batch_size, max_iter, output_iter, seed):
+  """documented stochastic dual averaging (Shi et al. 2014) with AdaGrad scaling, slack 1e-3, negative
+  trimming, evaluated at every output_iter.  Returns [(iter, objective, w)], for every checkpoint."""
+  n, K = dist_diff.shape
+  rs = np.random.RandomState(seed)
+  batches = rs.randint(low=0, high=n, size=(max_iter, batch_size))
+  w = np.zeros(K)
+  avg = np.zeros(K)
+  ada = np.zeros(K)
+  delta = 0.001
+  cps = []
+  for it in range(max_iter):
+    idx = batches[it]
+    g = np.zeros(K)
+    for j in idx:
+      if 1 + dist_diff[j].dot(w) > 0:
+        g += dist_diff[j]
+    g /= batch_size
+    avg = (it * avg + g) / (it + 1)
+    ada = np.sqrt(ada ** 2 + g ** 2)
+    w = -(it + 1) / (gamma * (delta + ada)) * np.minimum(avg + beta, 0)
+    if (it + 1) % output_iter == 0:
+      slack = 1 + dist_diff.dot(w)
+      obj = beta * w.sum() + slack[slack > 0].sum() / n
+      cps.append((it + 1, float(obj), w.copy()))
+  return cps
